@@ -469,22 +469,24 @@ def _fs_lines(pad):
     return lines
 
 
-def _fs_text(offset, kind, mult):
-    """CRLF text in which the CR of a line of the wanted kind is character number mult*offset (1-based),
-    i.e. a reader working in blocks of `offset` characters sees the CR and the LF in different blocks."""
+def _fs_text(offset, kind, mult, nl="\r\n"):
+    """Text in which the line terminator of a line of the wanted kind ends at / straddles character number
+    mult*offset: CRLF - the CR is character number mult*offset (a reader working in blocks of `offset`
+    characters sees CR and LF in different blocks); LF - the LF is that character (a block ends exactly
+    on a line boundary)."""
     target = mult * offset - 1
     lines = _fs_lines(0)
     pos, best = 0, None
     for i, ln in enumerate(lines):
-        cr = pos + len(ln)                       # index of this line's CR
+        cr = pos + len(ln)                       # index of this line's first terminator character
         if i > 2 and ln.strip()[:1] == kind and cr <= target:
             best = cr
-        pos = cr + 2
+        pos = cr + len(nl)
     if best is None:
         return None
     lines = _fs_lines(target - best)
-    text = "\r\n".join(lines) + "\r\n"
-    assert text[target] == "\r" and text[target + 1] == "\n"
+    text = nl.join(lines) + nl
+    assert text[target] == nl[0]
     return lines, text
 
 
@@ -496,7 +498,8 @@ def crlf_file_scale(oi: int, ki: int, mult: int) -> bool:
     offset, kind, mult = H.pick(_FS_OFFSETS, oi), H.pick(_FS_KINDS, ki), H.pick([1, 2], mult - 1)
     with H.untraced():      # concrete on every path: the solver only chooses the case
         made = _fs_text(offset, kind, mult)
-        if made is None:
+        made_lf = _fs_text(offset, kind, mult, "\n")
+        if made is None or made_lf is None:
             return done(True)
         lines, crlf = made
         lf = "\n".join(lines) + "\n"
@@ -504,8 +507,11 @@ def crlf_file_scale(oi: int, ki: int, mult: int) -> bool:
         with H.patched((C, "logger", log), (T_, "logger", log)):
             a = Chart.from_file(io.StringIO(lf))
             b = Chart.from_file(io.StringIO(crlf))
+            c = Chart.from_file(io.StringIO(made_lf[1]))         # LF text with a block boundary exactly on a line boundary
         ok = observe(a) == observe(b) and a == b and len(log.warnings) == 0
-        ok = ok and len(a.instrument_tracks) == 10 and all(len(t.note_events) == 170 for dd in a.instrument_tracks.values() for t in dd.values())
+        for ch in (a, c):
+            ok = ok and len(ch.instrument_tracks) == 10 and all(len(t.note_events) == 170 for dd in ch.instrument_tracks.values() for t in dd.values())
+            ok = ok and len(ch.global_events_track.section_events) == 1 and len(ch.sync_track.bpm_events) == 1
     return done(ok)
 
 
